@@ -29,6 +29,8 @@ fn setup(ctx: &mut Ctx) {
     ctx.floor("name:high-bytes", 100);
     ctx.floor("name:empty", 50);
     ctx.floor("garbage:some-result-checked", 20);
+    ctx.floor("garbage:strtab-tail-cut", 100);
+    ctx.floor("garbage:table-built-for-other-names", 100);
     ctx.floor("hash-fn:compared", 4369);
     ctx.floor("shift>=16", 50);
     ctx.floor("bloom_size>=8", 50);
@@ -212,7 +214,40 @@ fn corrupted(ctx: &mut Ctx) {
     let mut hash = build_gnu(enc, &names, &p);
     let mut symtab = tab.symtab.clone();
     let mut strtab = tab.strtab.clone();
-    match ctx.rng.below(7) {
+    let mut extra_queries: Vec<Vec<u8>> = Vec::new();
+    match ctx.rng.below(10) {
+        7 => {
+            // the string table loses its last 1..3 bytes: the last name is no longer terminated
+            let k = 1 + ctx.rng.usize_below(3);
+            let l = strtab.len().saturating_sub(k);
+            strtab.truncate(l);
+            ctx.count("garbage:strtab-tail-cut");
+        }
+        8 | 9 => {
+            // a table built for *other* names than the symbols really have (one bucket, so that every chain entry is
+            // reached): a lookup of the name the table was built for must not return the differently named symbol.
+            // One of the other names is the symbol's own string-table entry joined with the entry behind it.
+            let so = (p.symoffset as usize).min(names.len());
+            if names.len() > so {
+                let j = so + ctx.rng.usize_below(names.len() - so);
+                let st_name = tab.recs[j].get("st_name") as usize;
+                let rest = &tab.strtab[st_name.min(tab.strtab.len())..];
+                let e = rest.iter().position(|c| *c == 0).unwrap_or(rest.len());
+                let after = rest.get(e + 1..).unwrap_or(&[]);
+                let e2 = after.iter().position(|c| *c == 0).unwrap_or(after.len());
+                let alt: Vec<u8> = match ctx.rng.below(3) {
+                    0 => rest[..(e + 1 + e2).min(rest.len())].to_vec(),  // A \0 B
+                    1 => rest[..(e + 1).min(rest.len())].to_vec(),       // A \0
+                    _ => { let mut v = names[j].clone(); v.push(b'!'); v }
+                };
+                let mut names2 = names.clone();
+                names2[j] = alt.clone();
+                let p1 = GnuParams { nbucket: 1, symoffset: p.symoffset, bloom_size: p.bloom_size, shift: p.shift };
+                hash = build_gnu(enc, &names2, &p1);
+                extra_queries.push(alt);
+                ctx.count("garbage:table-built-for-other-names");
+            }
+        }
         0 => hash = { let n = ctx.rng.usize_below(240); ctx.rng.bytes(n) },
         1 => {
             // header fields: nbucket, symoffset, bloom_size, shift
@@ -283,6 +318,7 @@ fn corrupted(ctx: &mut Ctx) {
     ctx.sample(|| format!("{} corrupted .gnu.hash {} nsyms={}", enc.name(), hex_trunc(&hash, 48), names.len()));
     let mut queries: Vec<Vec<u8>> = names.clone();
     queries.extend(absent_candidates(&mut ctx.rng, &names, true).into_iter().take(20));
+    queries.extend(extra_queries);
     for q in queries {
         ctx.eval();
         match find_any(enc, any, &hash, &symtab, &strtab, &q) {
